@@ -52,3 +52,9 @@ CORPUS = [
             # Check that received hash matches
             if Security.sign(bytes(packet[:-16])) != received:""", "S"),
 ]
+# round 6: dropped `raise` (the exception object is built and discarded), asserts
+CORPUS += [
+    M("raise-dropped-truncated", L, "            if len(packet) < length:\n                raise ProtocolError(", "            if len(packet) < length:\n                ProtocolError("),
+    M("assert-on-peer-length", L, "            packet = packet[:length]\n", "            packet = packet[:length]\n            assert len(packet) > 56\n"),
+    M("n-assert-implied-length", L, "            packet = packet[:length]\n", "            packet = packet[:length]\n            assert len(packet) == length\n", "S"),
+]
